@@ -62,7 +62,7 @@ Print Assumptions c09_raw_header_expanded_sample.
    cuts through -- is a prefix of the complete list; the layer stack is a prefix of the frame's layers.  Composition of
    the sFlow producer with c10_any_capture_length (Proofs/FrameAnyCutP.v any_cut_on, from the sample's base message).
    True of the implementation since fix 5d701ef: the dissector gets the header_length bytes, not the XDR padding. *)
-From GF Require Import Proofs.FrameAnyCutP Proofs.SFlowRT.
+From GF Require Import Proofs.FrameCutP Proofs.FrameAnyCutP Proofs.SFlowRT.
 Theorem c09_raw_header_any_capture : forall f n hdr rate pool drops inif outif flen stripped,
   wf_frame f = true ->
   exists m,
@@ -74,7 +74,12 @@ Theorem c09_raw_header_any_capture : forall f n hdr rate pool drops inif outif f
        a = alookup (cols (sample_base rate inif outif flen)) k \/
        exists va vr, a = Some va /\ alookup (cols (framed (sample_base rate inif outif flen) f)) k = Some vr /\ vprefix va vr) /\
     (exists k, mgetLI m cLayerStack = firstn k (map (fun x => layer_code (fst x)) (frame_layers f)) /\
-               length (mgetLI m cLayerSize) = length (mgetLI m cLayerStack)).
+               length (mgetLI m cLayerSize) = length (mgetLI m cLayerStack)) /\
+    (* every column written by a header that lies completely inside the capture has the complete frame's value *)
+    (forall j k, (j <= length (frame_chain f))%nat ->
+       (length (concat (map lhdr (firstn j (frame_chain f)))) <= length (firstn n (encode_frame f)))%nat ->
+       In k (fkeys (applied false (firstn j (frame_chain f)))) ->
+       alookup (cols m) k = alookup (cols (framed (sample_base rate inif outif flen) f)) k).
 Proof. exact raw_header_cut_flow_sample. Qed.
 Print Assumptions c09_raw_header_any_capture.
 
@@ -83,7 +88,8 @@ Theorem c09_raw_header_any_capture_expanded : forall f n hdr rate pool drops inf
   exists m,
     convert_sf empty_pcfg {| sKind := SExpFlowS; sHdr := hdr; sVals := [rate; pool; drops; infmt; inif; outfmt; outif; 1];
                              sRecs := [mk_header 1 flen stripped (firstn n (encode_frame f))] |} = Ok m /\
-    cols_ok (sample_base rate inif outif flen) m f /\ layers_ok m f.
+    cols_ok (sample_base rate inif outif flen) m f /\ layers_ok m f /\
+    complete_ok (sample_base rate inif outif flen) m f (length (firstn n (encode_frame f))).
 Proof. exact raw_header_cut_expanded_sample. Qed.
 Print Assumptions c09_raw_header_any_capture_expanded.
 
